@@ -132,8 +132,8 @@ def create_random_binary_mask(features):
 
 
 def searchsorted(bin_locations, inputs, eps=1e-6):
-    bin_locations[..., -1] += eps
-    return torch.sum(inputs[..., None] >= bin_locations, dim=-1) - 1
+    # The last edge closes the last bin: compare against all edges but the last.
+    return torch.sum(inputs[..., None] >= bin_locations[..., :-1], dim=-1) - 1
 
 
 def cbrt(x):
